@@ -1146,9 +1146,12 @@ func (il *inliner) simpleReturn(call *ast.CallExpr, fn *types.Func) ([]ast.Expr,
 	if !okFree {
 		return nil, false
 	}
-	for _, n := range uses {
+	for obj, n := range uses {
 		if n > 1 {
-			return nil, false
+			// duplicating the argument is harmless only when it is a plain name (or a field path of names)
+			if !isNamePath(subst[obj]) {
+				return nil, false
+			}
 		}
 	}
 	posObj := map[token.Pos]types.Object{}
@@ -2015,4 +2018,22 @@ func isUnlockCall(c *ast.CallExpr) bool {
 		return false
 	}
 	return sel.Sel.Name == "Unlock" || sel.Sel.Name == "RUnlock"
+}
+
+
+// isNamePath: x, x.f, x.f.g, (*x).f - no calls, no indexing: evaluating it twice is the same as once.
+func isNamePath(e ast.Expr) bool {
+	switch x := e.(type) {
+	case *ast.Ident:
+		return true
+	case *ast.SelectorExpr:
+		return isNamePath(x.X)
+	case *ast.ParenExpr:
+		return isNamePath(x.X)
+	case *ast.StarExpr:
+		return isNamePath(x.X)
+	case *ast.UnaryExpr:
+		return x.Op == token.AND && isNamePath(x.X)
+	}
+	return false
 }
